@@ -360,6 +360,18 @@ def _obj(rep, hist, what, inp, rp):
         cl = "computing the hash never changes the hypergraph"
         rep.check(after == snap, FN, cl, inp, expected=lambda: base._show(snap),
                   observed=lambda: base._show(after) if "type" in after else after, key=f"{FN}:{cl} [{tname}]", replay=rp)
+        # the same on an object whose hypergraph metadata was replaced by the user (it then lacks the constructor's entries)
+        h2, _ = execute(hist)
+        if h2 is not None:
+            try:
+                h2.set_hypergraph_metadata({"note": "replaced by the user"})
+                s2 = base.snapshot(h2)
+                do_hash(h2)
+                a2 = base.snapshot(h2)
+                rep.check(a2 == s2, FN, cl, inp, expected=lambda: base._show(s2), observed=lambda: base._show(a2) if "type" in a2 else a2,
+                          key=f"{FN}:{cl} [{tname}; hypergraph metadata replaced]", replay=rp)
+            except Exception:   # noqa: BLE001 - a raising getter / hash is reported by the clauses above
+                pass
     return snap, d, None
 
 
